@@ -3,7 +3,8 @@
    an update naming itself from its own current run.
    Model: Model/Flood.v (handleRoutingUpdate, step-exact correspondence by `./check C06`) and
    Model/FloodWorld.v (a mesh of such nodes with arbitrary delivery order and loss). *)
-From Receptor Require Import Model.Flood Model.FloodWorld Model.FloodConc Model.FloodCases Proofs.Flood Proofs.FloodWorld Proofs.FloodConc.
+From Receptor Require Import Model.Flood Model.FloodWorld Model.FloodConc Model.FloodCases Proofs.Flood Proofs.FloodWorld Proofs.FloodConc Proofs.FloodOrder.
+From Coq Require Import Permutation.
 Open Scope N_scope.
 
 (* 1. Along EVERY history of ordinary updates and expiries (hence every delivery order,
@@ -145,4 +146,50 @@ Print Assumptions C06_split_filter_refuted.
 Example C06_concurrent_nonvacuous :
   let r := run_sched step_atomic [] (fresh_threads [7; 7; 9]) [2; 0; 1; 0]%nat in
   all_done (snd r) = true /\ passes 7 (snd r) = 1%nat /\ passes 9 (snd r) = 1%nat /\ fst r = [7; 9].
+Proof. vm_compute. repeat split; reflexivity. Qed.
+
+(* 11. THE NEWEST WINS IN EVERY ORDER.  For every history of genuine ordinary updates with distinct fresh
+       IDs - any order, any neighbours - the pair the node ends up recording for an origin covers every
+       delivered update of that origin, and is the initial pair or a delivered one; for a new origin it is
+       exactly the newest.  Concurrent deliveries of DIFFERENT updates of one origin are tied to this by
+       the harness's linearizability check: [seq_check] holds iff what the real node recorded is what the
+       model yields for SOME order of the batch. *)
+Theorem C06_newest_wins_in_every_order : forall h st,
+  Forall (fun x => genuine (ns_self st) (fst x)) h ->
+  NoDup (map (fun x => u_id (fst x)) h) ->
+  (forall x, In x h -> mem_N (u_id (fst x)) (ns_seen st) = false) ->
+  forall x, In x h ->
+    pair_le (Some (u_epoch (fst x), u_seq (fst x))) (info_of (fst (run st (recvs h))) (u_origin (fst x))) = true.
+Proof. exact newest_wins. Qed.
+Print Assumptions C06_newest_wins_in_every_order.
+
+Theorem C06_final_pair_is_initial_or_delivered : forall h st o,
+  Forall (fun x => u_susp (fst x) = 0) h ->
+  info_of (fst (run st (recvs h))) o = info_of st o
+  \/ exists x, In x h /\ u_origin (fst x) = o
+               /\ info_of (fst (run st (recvs h))) o = Some (u_epoch (fst x), u_seq (fst x)).
+Proof. exact final_pair_is_delivered. Qed.
+Print Assumptions C06_final_pair_is_initial_or_delivered.
+
+Theorem C06_new_origin_any_order : forall h st o,
+  Forall (fun x => genuine (ns_self st) (fst x)) h ->
+  NoDup (map (fun x => u_id (fst x)) h) ->
+  (forall x, In x h -> mem_N (u_id (fst x)) (ns_seen st) = false) ->
+  (forall x, In x h -> u_origin (fst x) = o) ->
+  info_of st o = None -> h <> [] ->
+  exists x, In x h /\ info_of (fst (run st (recvs h))) o = Some (u_epoch (fst x), u_seq (fst x))
+            /\ forall y, In y h -> lex_le (u_epoch (fst y), u_seq (fst y)) (u_epoch (fst x), u_seq (fst x)) = true.
+Proof. exact new_origin_any_order. Qed.
+Print Assumptions C06_new_origin_any_order.
+
+Theorem C06_linearizability_check_exact : forall c,
+  seq_check c = true <-> exists p, Permutation (q_batch c) p /\ seq_explains c p = true.
+Proof. exact seq_check_exact. Qed.
+Print Assumptions C06_linearizability_check_exact.
+
+Example C06_any_order_nonvacuous :
+  let a := ({| u_origin := 5; u_id := 10; u_epoch := 7; u_seq := 1; u_conns := Some [(2, 1)]; u_fwd := 2; u_susp := 0 |}, 2) in
+  let b := ({| u_origin := 5; u_id := 11; u_epoch := 7; u_seq := 2; u_conns := Some [(3, 1)]; u_fwd := 3; u_susp := 0 |}, 3) in
+  info_of (fst (run ex_st (recvs [a; b]))) 5 = Some (7, 2) /\ info_of (fst (run ex_st (recvs [b; a]))) 5 = Some (7, 2)
+  /\ aget 5 (ns_known (fst (run ex_st (recvs [b; a])))) = Some [(3, 1)].
 Proof. vm_compute. repeat split; reflexivity. Qed.
